@@ -11,6 +11,7 @@ import (
 	"io"
 	"net"
 	"os"
+	"strings"
 	"sync"
 	"testing"
 	"time"
@@ -359,6 +360,9 @@ func runCase(c Case, st *Stats) *ev.Failure {
 type Case2 struct {
 	Bad  string `json:"bad"`
 	Cuts []int  `json:"cuts"`
+	// SameID: A's undecodable message is a template set that names the template id connection B
+	// uses (both exporters number their templates from the same start in the same observation domain)
+	SameID bool `json:"same_id,omitempty"`
 }
 
 func runCase2(c Case2) *ev.Failure {
@@ -388,7 +392,11 @@ func runCase2(c Case2) *ev.Failure {
 		}
 	}
 	// connection A
-	a := Case{Msgs: []Msg{{Kind: "tpl", Tpl: 1}, {Kind: "data", Tpl: 1, NRec: 1, StrLen: 3}, {Kind: c.Bad, Tpl: 0, Len: 16}}, Cuts: c.Cuts}
+	badTpl := 0
+	if c.SameID {
+		badTpl = 1
+	}
+	a := Case{Msgs: []Msg{{Kind: "tpl", Tpl: 1}, {Kind: "data", Tpl: 1, NRec: 1, StrLen: 3}, {Kind: c.Bad, Tpl: badTpl, Len: 16}}, Cuts: c.Cuts}
 	msgs, _ := build(a)
 	var stream []byte
 	for _, m := range msgs {
@@ -823,6 +831,23 @@ func TestC11(t *testing.T) {
 				rec.Violation("two_connections", c, f.Msg)
 				t.Fatalf("%s", f.Msg)
 			}
+		}
+	}
+	// ... and an undecodable template set on A that names B's template id. The template table is
+	// keyed by (observation domain, template id) for the whole process, not per connection: A's bad
+	// template removes B's template, B's next data message is refused and B is closed (finding D23).
+	{
+		c := Case2{Bad: "badtemplate", SameID: true}
+		f := runCase2(c)
+		switch {
+		case f != nil && rec.Open("D23") && strings.Contains(f.Msg, "other connections must be unaffected"):
+			rec.Excluded("D23_bad_template_on_another_connection_same_domain_and_id")
+			rec.Known("D23", "an undecodable template set on one tcp connection removes the template a second connection (same observation domain, same template id) had announced: that connection's next data message is refused and it is closed - the template table is per process, not per connection")
+		case f != nil:
+			rec.Violation("two_connections", c, f.Msg)
+			t.Fatalf("%s", f.Msg)
+		default:
+			rec.Case(ev.Hash(c), true, "two_connections", "invalid_badtemplate_same_id")
 		}
 	}
 	genRandom := func(t *rapid.T) Case {
